@@ -131,6 +131,22 @@ func runC08(c *Ctx, w *World, r *Report) {
 						found = true
 						cl, ok := vs.Values[i].(*ast.CompositeLit)
 						if !ok {
+							// built by a helper from the list of widths: BitWord = newBWs(1, 2, 4, 8), the helper storing
+							// m[n] = newBW(n) for every n of its list
+							if ce, isCall := vs.Values[i].(*ast.CallExpr); isCall {
+								if fid, isId := ce.Fun.(*ast.Ident); isId && tableBuilderForm(w, fns["bitword.newBW"], fid.Name) {
+									for _, a := range ce.Args {
+										at := p.TypesInfo.Types[a]
+										if at.Value == nil || ce.Ellipsis.IsValid() {
+											bad = "BitWord is built from a width that is not a constant"
+											continue
+										}
+										k, _ := constant.Int64Val(at.Value)
+										keys = append(keys, k)
+									}
+									return false
+								}
+							}
 							bad = "BitWord is not a map literal"
 							return false
 						}
@@ -659,11 +675,19 @@ func runC08(c *Ctx, w *World, r *Report) {
 		for _, lf := range fdLeaves {
 			v := lf.v
 			if iv, ok := fa.InductionOf(v, lf.blk); ok && iv.Step == 1 {
-				if seenPos[v] {
-					continue
+				if !iv.HasN && iv.Phi != nil {
+					// returned after the loop (`for i < end && same(i) { i++ }; return i`): the bound is the one that guards the body
+					for _, sb := range iv.Phi.Block().Succs {
+						if iv2, ok := fa.InductionOf(v, sb); ok && iv2.HasN && iv2.Phi == iv.Phi && len(sb.Preds) == 1 {
+							iv = iv2
+							break
+						}
+					}
+				}
+				if !seenPos[v] {
+					nPos++
 				}
 				seenPos[v] = true
-				nPos++
 				if !iv.FirstLin.Eq(fa.Lin(fn.Params[3])) {
 					bad = "the scan does not start at `from`"
 				}
@@ -693,6 +717,11 @@ func runC08(c *Ctx, w *World, r *Report) {
 						fa.VN(ia) == fa.VN(v) && fa.VN(ib) == fa.VN(v) {
 						okC = true
 					}
+				}
+				if !okC && iv.HasN && fdScanEnded(fa, iv, v, lf.conds) {
+					// the scan ran to its bound (i < end failed, and the loop was entered with from <= end): i == end here,
+					// the no-difference result
+					okC = true
 				}
 				if !okC {
 					bad = "a position is returned on an edge other than Get(a,i) != Get(b,i)"
@@ -1054,4 +1083,102 @@ func toStrScatter(fa *FA, fn *ssa.Function, mk *ssa.MakeSlice, st *ssa.Store, ia
 	}
 	_ = M
 	return ""
+}
+
+// fdScanEnded: on this alternative the counter v (step 1, bound N) has left the loop through its own bound test and the
+// loop was entered with first <= N: v == N.
+func fdScanEnded(fa *FA, iv *LoopIV, v ssa.Value, conds []Cond) bool {
+	failed := false
+	for _, cd := range conds {
+		L, op, ok := fa.CondRel(cd)
+		if !ok {
+			continue
+		}
+		// L op 0 with L = v - N (or N - v)
+		d := fa.Lin(v).Sub(iv.N)
+		switch {
+		case L.Eq(d) && (op == opGE || op == opEQ):
+			failed = true
+		case L.Eq(d.Neg()) && (op == opLE || op == opEQ):
+			failed = true
+		}
+	}
+	if !failed || iv.Phi == nil {
+		return false
+	}
+	hb := iv.Phi.Block()
+	for i, pred := range hb.Preds {
+		if hb.Dominates(pred) {
+			continue
+		}
+		cs := append(append([]Cond{}, fa.Conds(pred)...), selfCond(pred, hb)...)
+		bd := fa.boundsFrom(cs, iv.N.Sub(fa.Lin(iv.Phi.Edges[i])))
+		if !bd.HasLo || bd.Lo < 0 {
+			return false
+		}
+	}
+	return true
+}
+
+// tableBuilderForm: the package function `name` returns a fresh map into which it stores, for every element n of its
+// one (variadic or slice) parameter and for nothing else, m[n] = newBW(n).
+func tableBuilderForm(w *World, newBW *ssa.Function, name string) bool {
+	if newBW == nil {
+		return false
+	}
+	f := newBW.Pkg.Func(name)
+	if f == nil || len(f.Params) != 1 || f.Blocks == nil {
+		return false
+	}
+	fa := w.FA(f)
+	var mk *ssa.MakeMap
+	nup := 0
+	ok := true
+	eachInstr(f, func(ins ssa.Instruction) {
+		switch x := ins.(type) {
+		case *ssa.MakeMap:
+			if mk != nil {
+				ok = false
+			}
+			mk = x
+		case *ssa.MapUpdate:
+			nup++
+			cont, idx, isLoad := asElemLoad(x.Key)
+			if !isLoad || cont != ssa.Value(f.Params[0]) || x.Map != ssa.Value(mk) {
+				ok = false
+				return
+			}
+			iv, isIV := fa.InductionOf(idx, x.Block())
+			if !isIV || !iv.FirstConst || iv.First != 0 || iv.Step != 1 || !iv.HasN || !iv.N.Eq(fa.lenOf(f.Params[0], 0)) || fa.earlyExit(iv) != "" {
+				ok = false
+				return
+			}
+			call, isCall := stripConv(x.Value).(*ssa.Call)
+			if mi, isMI := x.Value.(*ssa.MakeInterface); isMI {
+				call, isCall = mi.X.(*ssa.Call)
+			}
+			if !isCall || call.Common().StaticCallee() != newBW || len(call.Common().Args) != 1 || call.Common().Args[0] != x.Key {
+				ok = false
+			}
+		case *ssa.Store, *ssa.Call:
+			if c, isCall := ins.(*ssa.Call); isCall {
+				if c.Common().StaticCallee() == newBW {
+					return
+				}
+				if b, isB := c.Common().Value.(*ssa.Builtin); isB && b.Name() == "len" {
+					return
+				}
+			}
+			ok = false
+		}
+	})
+	if !ok || mk == nil || nup != 1 {
+		return false
+	}
+	for _, ret := range returnsOf(f) {
+		if len(ret.Results) != 1 || ret.Results[0] != ssa.Value(mk) {
+			return false
+		}
+	}
+	return true
 }
